@@ -53,6 +53,8 @@ type FuncCtx struct {
 	wrap      bool
 	inlined   map[string]bool
 	inlinedWithLoops map[string]bool
+	callCount map[string]int
+	assertSeen map[string]bool
 	curTags   []string
 }
 
@@ -152,7 +154,7 @@ func (fc *FuncCtx) propsFor() []string {
 // ---- entry point: verify one function against its contract ----
 
 func VerifyFunction(p *Program, fn *ssa.Function, c *Contract) (fc *FuncCtx, err error) {
-	fc = &FuncCtx{p: p, top: fn, contract: c, notes: map[string]bool{}, counters: map[string]int{}, inlined: map[string]bool{}}
+	fc = &FuncCtx{p: p, top: fn, contract: c, notes: map[string]bool{}, counters: map[string]int{}, inlined: map[string]bool{}, callCount: map[string]int{}, assertSeen: map[string]bool{}}
 	fc.wrap = c.Arith == "wrap64"
 	savedFloat := floatSort
 	if c.Float == "xreal" {
@@ -225,6 +227,11 @@ func VerifyFunction(p *Program, fn *ssa.Function, c *Contract) (fc *FuncCtx, err
 	fc.obls = append(fc.obls, &Obligation{Name: fr.prefix + "#vacuity:requires#1", Kind: "vacuity", Func: fr.prefix, Hyps: fc.axioms, PC: st.pc, Goal: True, ExpectSat: true, Pos: p.pos(fn.Pos()), Desc: "precondition is satisfiable", Props: c.Props, Alloc: st.alloc})
 	fr.onReturn = func(rst *State, vals []Val) { fc.checkPost(fr, rst, vals) }
 	ret, _ := fc.run(fr, st, args, fvs)
+	for _, as := range c.Asserts {
+		if !fc.assertSeen[as.Name] {
+			panic(elabErr{fmt.Sprintf("%s:%d: assert_at %s: no such call in %s", c.File, as.Line, as.Name, funcKey(fn))})
+		}
+	}
 	if !hasLoop(fn) && len(fc.inlinedWithLoops) == 0 {
 		for _, o := range fc.obls {
 			o.NoUnfold = true
